@@ -58,6 +58,10 @@ def gen_case(rng, pkgbase):
         items.append({"kind": rng.choice(["multisection", "multisection", "section"]),
                       "name": rng.choice(["*", "*", "+"]), "attribute": "a%d" % (i + 1),
                       "required": False, "handler": None, "type": gen.mixcase(rng, a)})
+    if rng.random() < 0.35:
+        # a specifically named slot of an abstract type
+        items.append({"kind": "section", "name": "main", "attribute": "named_main", "required": False,
+                      "handler": None, "type": gen.mixcase(rng, rng.choice(abstract))})
     for t in types:
         if rng.random() < 0.25:
             items.append({"kind": "multisection", "name": "*", "attribute": "s_" + t["name"],
@@ -111,7 +115,17 @@ def gen_guided_text(rng, ast, packages):
         impl = (t.get("implements") or "").lower()
         if impl in slots or t["name"].lower() in slots:
             pool.append((t["name"], slots.get(impl) or slots.get(t["name"].lower())))
-    lines = ["%%import %s" % p for p in chosen]
+    lines = []
+    for p in chosen:
+        if rng.random() < 0.25:
+            lines.append("%%define lib%d %s" % (len(lines), p))
+            lines.append("%%import $%s" % rng.choice(["lib%d" % (len(lines) - 1), "LIB%d" % (len(lines) - 1)]))
+        elif rng.random() < 0.1 and p[-2:-1] == "p":
+            lines.append("%%define ns %s" % p[:-1])
+            lines.append("%%import ${ns}%s" % p[-1])
+        else:
+            lines.append("%%import %s" % p)
+    named = [it for it in ast["items"] if it["name"] == "main"]
     if rng.random() < 0.3 and chosen:
         lines.append("%%import %s" % chosen[0])
     names = ["n1", "n2", "n3", "n4", "n5", "n6"]
@@ -132,6 +146,9 @@ def gen_guided_text(rng, ast, packages):
             body.append(["<%s/>" % head])
         else:
             body.append(["<%s>" % head, "  v value", "</%s>" % t])
+    if named and avail and rng.random() < 0.7:
+        t = rng.choice(avail)          # any available type, implementer of that abstract type or not
+        body.append(["<%s main/>" % gen.mixcase(rng, t["name"])])
     # place the uses after the imports (mostly), sometimes in between or before
     r = rng.random()
     if r < 0.7 or not body:
